@@ -195,7 +195,7 @@ structure ScanOut where
   orphaned : List Bytes
   missing : List Bytes
   corrupted : List Bytes
-  staging : Nat
+  staging : List Nat          -- leftover staging files (by number)
   total : Nat
   deriving Repr
 
@@ -209,7 +209,7 @@ def scanCanonical (H : Bytes → Bytes) (verify : Bool) (idx : IndexState Bytes)
     corrupted := if verify then
         (files.filter (fun (h, x) => refd.contains h &&
             (x.data.length != sizeOf h || H x.data != h))).map (·.1) else []
-    staging := (stagingFiles d).length
+    staging := stagingFiles d
     total := files.length }
 
 /-! ### event scripts -/
@@ -394,6 +394,18 @@ def openScript (H : Bytes → Bytes) (cfg : Config) (d : Disk) (locked : Bool) :
       if cfg.scan ∧ cfg.failOnIntegrity ∧ (scan.missing ≠ [] ∨ scan.corrupted ≠ []) then
         (e0 ++ e1 ++ e2 ++ e3, .error (.integrity scan.missing.length scan.corrupted.length))
       else (e0 ++ e1 ++ e2 ++ e3, .ok (m', scan))
+
+/-- `OrphanStats::delete_orphans` (sequential: no pending intents): events and the
+    `RecoveryResult` counters (deleted, skipped, staging files removed). -/
+def deleteOrphansScript (m : Mem) (sc : ScanOut) (d : Disk) : List Ev × Nat × Nat × Nat :=
+  let step (acc : List Ev × Nat × Nat) (h : Bytes) : List Ev × Nat × Nat :=
+    let (evs, del, skip) := acc
+    if (rcGet m.idx.rc h).isSome then (evs, del, skip + 1)
+    else if (d.applyAll evs).has (.cas h) then (evs ++ [Ev.unlink (.cas h)], del + 1, skip)
+    else (evs, del, skip + 1)
+  let (evs, del, skip) := sc.orphaned.foldl step ([], 0, 0)
+  let st := sc.staging.filter (fun n => d.has (.staging n))
+  (evs ++ st.map (fun n => Ev.unlink (.staging n)), del, skip, st.length)
 
 /-! ### reads -/
 
